@@ -84,6 +84,12 @@ def run(ctx, out):
             q = {"0fa1": [[P.sysinfo_reply(wrong.encode().ljust(8, b"\0"), cfg["tid"].encode())]]}
             ops.append(G.op_line(cfg, calls, G.script_str(cfg, q)))
             meta.append((cfg, a, None, "wrongserial:" + wrong, "serial"))
+        # the identity request is answered with a well-formed abort (a reply type of that sequence): no serial was reported,
+        # so the connection is not vetted and must carry nothing but the handshake
+        for code in (0x83, 0x6c, 0xb8, 0x00, 0xff):
+            q = {"0fa1": [[P.abort(code)]]}
+            ops.append(G.op_line(cfg, calls, G.script_str(cfg, q)))
+            meta.append((cfg, a, None, "identity-abort:%02x" % code, "serial"))
         # case-insensitive match must be accepted
         cfg2 = G.default_cfg(max=mx, serial="17fd1e3c")
         ops.append(G.op_line(cfg2, calls, G.script_str(cfg2, None, None, None, "17FD1E3C")))
@@ -121,7 +127,7 @@ def run(ctx, out):
             # the connection whose terminal reported a different serial must carry nothing but the handshake
             c0 = [e for e in logs.get(0, []) if e.startswith("rx:")]
             if c0 != handshake(P, cfg):
-                why = f"connection 0 reported serial {f} but carried {c0[4:6]} after the identity check"
+                why = f"connection 0 answered the identity check with {f} but carried {c0[4:6]} after it"
         elif kd == "serial-ok":
             if len(logs) != 1:
                 why = "a serial that differs only in case was not accepted"
@@ -136,7 +142,7 @@ def run(ctx, out):
         if why:
             out.oracle_failures.append({"op": o, "observed": r[:600], "expected": "see what", "key": o[:300], "what": why})
     out.rule = (f"{len(HISTORIES)} call histories (start-up, read card, begin/commit/cancel over one and two tokens, configure, each followed by a further operation) x a single fault {faults} at EVERY item the terminal sends on the first "
-                "connection (handshake included); wrong / case-different serial; refused and stalled connection attempts; sampled multi-fault sequences over 4 connections. Oracle on the terminal's per-connection log: the failed "
+                "connection (handshake included); wrong / case-different serial; identity request answered with an abort (5 codes); refused and stalled connection attempts; sampled multi-fault sequences over 4 connections. Oracle on the terminal's per-connection log: the failed "
                 "connection carries exactly the fault-free prefix and nothing after the failure, every other connection starts with registration (configured password, currency) + identity check, one failure => exactly one reconnect "
                 "(the replacement is reused). implementation = model exactly (incl. virtual time stamps)")
     out.samples = [ops[7][:400], {"op": ops[-1][:300], "impl": impl[-1][:400]}]
